@@ -95,7 +95,7 @@ func Handle(c *core.Check, st core.State) {
 	}
 	nproj, nperr := project(nf.Body, schema)
 	nseq := sequence(nf.Body, schema)
-	nat := nativeSide{val: nval, diags: ndiags, proj: nproj, perr: nperr, seq: nseq}
+	nat := nativeSide{body: nf.Body, val: nval, diags: ndiags, proj: nproj, perr: nperr, seq: nseq}
 	for variant := 0; variant < 5; variant++ {
 		js := dec.JSON(items, variant)
 		vec := map[string]any{"state": st.Raw, "case": desc, "json": js, "native": src}
@@ -120,6 +120,7 @@ func summaries(ds hcl.Diagnostics) []string {
 }
 
 type nativeSide struct {
+	body  hcl.Body
 	val   cty.Value
 	diags hcl.Diagnostics
 	proj  string
@@ -155,6 +156,21 @@ func compareJSON(c *core.Check, sn *dec.SpecNode, spec hcldec.Spec, schema *hcl.
 	if nat.perr != jperr || (!nat.perr && nat.proj != jproj) {
 		c.Violation("content-differs/"+sn.K, fmt.Sprintf("%s: native content %s (errors=%v), JSON form %s content %s (errors=%v)", desc, nat.proj, nat.perr, js, jproj, jperr), vec)
 		return false
+	}
+	// the REMAINING body after a partial step that consumed every block type of the schema exposes the
+	// same content in both syntaxes (consumed types stay hidden, whatever a later schema asks for)
+	if len(schema.Blocks) > 0 {
+		blocksOnly := &hcl.BodySchema{Blocks: schema.Blocks}
+		_, nrem, nd := nat.body.PartialContent(blocksOnly)
+		_, jrem, jdg := jf.Body.PartialContent(blocksOnly)
+		if !nd.HasErrors() && !jdg.HasErrors() {
+			np, ne := project(nrem, schema)
+			jp, je := project(jrem, schema)
+			if ne != je || (!ne && np != jp) {
+				c.Violation("remaining-content-differs/"+sn.K, fmt.Sprintf("%s: after a partial step over the block types, native remaining content %s (errors=%v), JSON form %s remaining content %s (errors=%v)", desc, np, ne, js, jp, je), vec)
+				return false
+			}
+		}
 	}
 	// an encoding with one property per item keeps every item in source order, so the whole block
 	// sequence, across block types, must be the native one; the grouping forms can only keep the
@@ -201,6 +217,7 @@ func HandleEnc(c *core.Check, st core.State) {
 	}
 	schema := hcldec.ImpliedSchema(spec)
 	var nat nativeSide
+	nat.body = nf.Body
 	if _, p := core.Guard(func() { nat.val, nat.diags = hcldec.Decode(nf.Body, spec, dec.Ctx()) }); p {
 		c.Count("native_panic_skipped", 1)
 		return
